@@ -35,6 +35,8 @@ EXPLANATION = (
     "construction derives only from includes and `excludes` only from excludes, the default flips exactly under the test for "
     "an empty tail and is otherwise inherited, the tree is built with the default it was asked for, the root default is the "
     "presence of '' in includes and a root listed in both or neither is rejected with LenaValueError.  "
+    "The helper SelectContext relies on, get_recursively, raises LenaKeyError -- the only class SelectContext turns into False -- on "
+    "every raising path inside or after the key traversal (a missing key as well as a scalar met on the way).  "
     "Does not decide the truth table of a concrete nested specification nor the longest-prefix partition for concrete key sets.")
 RULES = {
     "C15-a": "TYPESTATE/AGREE: Selector.__init__ dispatch binds what its type test promises; list->any, tuple->all; Not negates",
